@@ -55,7 +55,7 @@ SPEC = {
                  "C10_code_observers", "C10_code_walks", "C10_traversals", "C10_code_refines_run", "C10_container_list_meets_spec", "C10_code_wrappers",
                  "C10_skeleton_writers", "C10_skeleton_readers", "C10_skeleton_pushlists", "C10_skeleton_type_shapes",
                  "C10_ts_linearizable", "C10_ts_real_time_order", "C10_ts_log_is_the_calls", "C10_ts_list_object", "C10_ts_list_is_sequential", "C10_ts_lock_kinds",
-                 "C10_lincheck_sound", "C10_lincheck_complete", "C10_lincheck_example", "C10_ts_no_deadlock", "C10_ts_writer_preference", "C10_newlist_flavour"],
+                 "C10_lincheck_sound", "C10_lincheck_complete", "C10_lincheck_example", "C10_ts_no_deadlock", "C10_ts_writer_preference", "C10_newlist_flavour", "C10_reentrant_traversal"],
     "trusted_base": [
         "harness/c10/xlate: the go/ast translator from ds/list_impl.go and GOROOT container/list into the statement language "
         "Hive/Model/DListIR.lean, and that language's interpreter (IR.exec) as the meaning of loads/stores/guards/calls; "
@@ -74,6 +74,8 @@ SPEC = {
         "container/list regenerated the same way",
         "threadSafeList = the same calls under one RWMutex: sequentially the same function; both flavours are executed by the harness; "
         "delegation table, constructors (newList calls Init; NewList flavour selection) pinned by regenerated obligations",
+        "traversals whose callback modifies the list (walkMut: deliver, act, then advance in the new list; 12 actions) for the "
+        "lock-free flavour, driven three-way by the reent lines",
         "nil dereference and the 'unsupported ListElement type' panics are NOT modelled (unreachable from well-formed states)",
         "handles that were live when Init was called on their list are outside the refinement-to-specification theorems (okRun) but "
         "inside the code theorems (same pointer program as container/list on every state) and inside the three-way differential",
